@@ -67,7 +67,25 @@ type c05bObs struct {
 	err  error
 }
 
+// c05bRename is the redirect plugin's shape: the rest of the chain (the cache and
+// everything behind it) runs with another name in the question, which is put
+// back when the chain returns. The refresh must be a refresh of the question
+// the cache saw.
+type c05bRename struct{}
+
+func (c05bRename) Exec(ctx context.Context, qCtx *query_context.Context, next sequence.ChainWalker) error {
+	old := qCtx.Q().Question[0].Name
+	qCtx.Q().Question[0].Name = "target.example."
+	err := next.ExecNext(ctx, qCtx)
+	qCtx.Q().Question[0].Name = old
+	return err
+}
+
 func c05bScenario(name string, nburst int, d int) vr.Scenario {
+	return c05bScenarioR(name, nburst, d, false)
+}
+
+func c05bScenarioR(name string, nburst int, d int, renamed bool) vr.Scenario {
 	var up *c05bUp
 	var burst []*c05bObs
 	var final *c05bObs
@@ -79,7 +97,12 @@ func c05bScenario(name string, nburst int, d int) vr.Scenario {
 		qCtx := query_context.NewContext(q)
 		w := sequence.NewChainWalker([]*sequence.ChainNode{{E: up}}, nil)
 		o := &c05bObs{id: id}
-		o.err = c.Exec(context.Background(), qCtx, w)
+		if renamed {
+			w = sequence.NewChainWalker([]*sequence.ChainNode{{RE: c05bRename{}}, {RE: c}, {E: up}}, nil)
+			o.err = w.ExecNext(context.Background(), qCtx)
+		} else {
+			o.err = c.Exec(context.Background(), qCtx, w)
+		}
 		if r := qCtx.R(); r != nil && len(r.Answer) == 1 {
 			a := r.Answer[0].(*dns.A)
 			o.ok, o.ttl, o.gen, o.rid = true, a.Hdr.Ttl, a.A.To4()[3], r.Id
@@ -169,9 +192,9 @@ func deref(xs []*c05bObs) []c05bObs {
 
 func TestVerifC05b(t *testing.T) {
 	e := vr.GetEnv()
-	scs := []vr.Scenario{c05bScenario("burst2", 2, 4), c05bScenario("burst3", 3, 2)}
+	scs := []vr.Scenario{c05bScenario("burst2", 2, 4), c05bScenario("burst3", 3, 2), c05bScenarioR("burst2-behind-a-redirect", 2, 3, true)}
 	if e.Tier == "thorough" {
-		scs = []vr.Scenario{c05bScenario("burst2", 2, 6), c05bScenario("burst3", 3, 4)}
+		scs = []vr.Scenario{c05bScenario("burst2", 2, 6), c05bScenario("burst3", 3, 4), c05bScenarioR("burst2-behind-a-redirect", 2, 5, true)}
 	}
 	vr.RunScenarios("C05", scs)
 }
